@@ -4,6 +4,7 @@ import petl.config as cfg
 from hypothesis import strategies as st
 
 from pv import gen, codec
+from pv.probes import BOOM_KINDS
 from pv.core import Sub, Fail, exc_fail
 from pv.ref import base as R
 
@@ -59,6 +60,7 @@ def sort_case(draw, tier):
         "via_config": draw(st.booleans()),
         # optionally the very first pass hits a transient source fault at this data row; "every pass" includes the retry
         "fail_first": draw(st.one_of(st.none(), st.none(), st.integers(0, max(0, n - 1)))) if n else None,
+        "fail_kind": draw(st.sampled_from(BOOM_KINDS)),
         # the input may itself be a sorted petl view (by the first field, either direction) - sort of a sort
         "upstream": draw(st.sampled_from(["none", "none", "none", "sortfirst", "sortfirst-rev", "sortsame"])),
     }
@@ -109,6 +111,7 @@ def check_sort(case, ctx):
                 from pv.probes import Counting, Boom
                 csrc = Counting(src)
                 csrc.fail_at = ff
+                csrc.fail_kind = case.get("fail_kind", "plain")
                 view = etl.sort(csrc, key, **kw)
                 try:
                     list(view)
@@ -188,17 +191,28 @@ def merge_case(draw, tier):
     n = max(len(t) - 1 for t in tables)
     return {"tables": tables, "key": key, "reverse": draw(st.booleans()), "missing": missing,
             "header": header, "presorted": draw(st.booleans()), "buffersize": draw(gen.buffersizes(n)),
-            "passes": draw(st.integers(1, 2))}
+            "passes": draw(st.integers(1, 2)),
+            # inputs that are themselves sort views on the same key, in the same or the opposite direction
+            "upstream": [draw(st.sampled_from(["none", "none", "none", "same", "opposite"])) for _ in tables]}
 
 
 def check_merge(case, ctx):
     tables, key, reverse = case["tables"], case["key"], case["reverse"]
     missing, header = case["missing"], case["header"]
-    exp_cat = R.ref_cat(tables, missing=missing, header=header)
+    ups = case.get("upstream") or ["none"] * len(tables)
+    if case["presorted"]:
+        ups = ["same" if u == "opposite" else u for u in ups]
+    updir = [None if u == "none" else (reverse if u == "same" else not reverse) for u in ups]
+    # the effective inputs: an upstream sort view delivers the reference sort of its table (checked by sub 'sort')
+    eff = [t if d is None else [list(r) for r in R.ref_sort(t, key, d)] for t, d in zip(tables, updir)]
+    exp_cat = R.ref_cat(eff, missing=missing, header=header)
     exp = R.ref_sort(exp_cat, key, reverse)
     srcs = [codec.snapshot(t) for t in tables]
     if case["presorted"]:
         srcs = [[list(r) for r in R.ref_sort(t, key, reverse)] for t in srcs]
+    srcs = [t if d is None else etl.sort(t, key, reverse=d) for t, d in zip(srcs, updir)]
+    if any(d is not None for d in updir):
+        ctx.label("upstream-sortview")
     idx = _key_indices(exp[0], key)
     keys = [R.keyof(r, idx) for r in exp[1:]]
     dup = any(R.ref_cmp(a, b) == 0 for a, b in zip(keys, keys[1:]))
